@@ -691,7 +691,8 @@ def node_op_dtypes(model):
 # A deviation measured on this run that is NOT in this table fails tie D1 (fail closed); exported graphs that
 # contain a deviating (operator, type) are not searched through onnxruntime (recorded in the coverage).
 ORT_KNOWN_DEVIATIONS = {("Max", "int64"), ("Min", "int64"), ("Sign", "int64"), ("Clip", "int64"), ("Relu", "int64"),
-                        ("Max", "uint64"), ("Min", "uint64"), ("Clip", "uint64"), ("Pow", "int64")}
+                        ("Max", "uint64"), ("Min", "uint64"), ("Clip", "uint64"), ("Pow", "int64"),
+                        ("Mod", "int64"), ("Mod", "uint64")}      # Mod(fmod=1) on 64-bit integers goes through double
 OPSET = 23
 
 
@@ -758,7 +759,6 @@ def d1_specs(tier):
     S.append(("Not", "Not", {}, "i", ["bool"], "o_not", "bool"))
     S.append(("Where", "Where", {}, "bii", INT_DTYPES, "o_where", "int"))
     S.append(("Where", "Where", {}, "bii", ["bool"], "o_where_b", "bool"))
-    S.append(("Clip", "Clip", {}, "iii", INT_DTYPES, "o_clip", "int"))
     S.append(("Cast(bool)", "Cast", {"to": ONNX_CODE["bool"]}, "i", INT_DTYPES, "o_cast_to_bool", "bool"))
     for f in ("Floor", "Ceil", "Round"):
         S.append((f, f, {}, "f", FLOATS, f"o_{f.lower()}", "fint"))
@@ -807,6 +807,15 @@ def run_d1(ctx, tier, rng):
         add(f"Cast({t})", "Cast", {"to": ONNX_CODE[t]}, [s], cols, f"o_cast {sb_lit(t)}", "int")
     for t in INT_DTYPES:
         add(f"Cast(bool->{t})", "Cast", {"to": ONNX_CODE[t]}, ["bool"], (np.array([False, True]),), f"o_cast_of_bool {sb_lit(t)}", "int")
+    # Clip(x, lo, hi) with scalar constant bounds (also lo > hi)
+    for dt in INT_DTYPES:
+        vals = int_values(dt, small=True)
+        bnds = [vals[0], vals[len(vals) // 3], 0, 5, vals[-1]]
+        for lo in bnds:
+            for hi in bnds[::2] + [1]:
+                cols = (np.array(vals, dtype=dt),)
+                add(f"Clip({lo},{hi})", "Clip", {}, [dt], cols, f"(fun x => o_clip x {zlit(lo)} {zlit(hi)})", "int",
+                    consts=[np.array(lo, dtype=dt), np.array(hi, dtype=dt)])
     # Pow with a scalar constant exponent
     for dt in ("int32", "int64"):
         for y in (0, 1, 2, 3):
@@ -955,7 +964,12 @@ def run(ctx):
         "C01K: variants onnxruntime has no kernel for, or on which onnxruntime itself deviates from the ONNX operator semantics "
         "(measured by tie D1 on this run), are proved and structure-tied but not searched through onnxruntime",
     ]
+    import time as _time
+    T = {}
+    t_ = _time.time()
     common.build_props(ctx, "C01K", [])
+    T["coq_build"] = round(_time.time() - t_, 1)
+    t_ = _time.time()
 
     ks = _kernels()
     variants = [Variant(k, dt) for k in ks for dt in k.dtypes]
@@ -987,6 +1001,8 @@ def run(ctx):
             todo = [v for v in variants if v.needs64() == flag]
             with ThreadPoolExecutor(max_workers=8) as ex:
                 list(ex.map(ref, todo))
+        T["jax_references"] = round(_time.time() - t_, 1)
+        t_ = _time.time()
         # ---- phase 2: real exports of the single-primitive programs
         for flag in (False, True):
             _set_x64(flag)
@@ -1005,10 +1021,14 @@ def run(ctx):
         elif v.export_err:
             ctx.oblige(f"export:{v.id}", False, "tie", "to_onnx failed on the single-primitive program: " + v.export_err)
     live = [v for v in variants if v.model is not None]
+    T["exports"] = round(_time.time() - t_, 1)
+    t_ = _time.time()
 
     # ---- tie D1: OnnxInt vs onnxruntime (one-op models); measured onnxruntime deviations
     deviations, d1stats = run_d1(ctx, tier, rng)
 
+    T["tieD1"] = round(_time.time() - t_, 1)
+    t_ = _time.time()
     # ---- tie S: structure of the real export, convertible to Kernels.lowered_<k>
     for v in live:
         try:
@@ -1042,6 +1062,8 @@ def run(ctx):
     ctx.oblige(f"tieS:exported-structure-convertible-to-lowered_k({n_s}/{len(live)} kernel x dtype variants)",
                n_s == len(live), "tie", "" if n_s == len(live) else "see the tieS:<kernel>:<dtype> obligations")
 
+    T["tieS"] = round(_time.time() - t_, 1)
+    t_ = _time.time()
     # ---- the property on the real code: onnxruntime(export) vs eager JAX on the grid
     no_kernel, deviant, searched, points = [], [], 0, 0
     nontrivial = 0
@@ -1118,6 +1140,8 @@ def run(ctx):
                         {"kind": "value", "kernel": v.k.name, "dtype": v.dt, "input": point(v, i), "onnxruntime": got, "jax": exp,
                          "differing_points": len(v.bad), "more_inputs": [point(v, b) for b in v.bad[1:6]], "nodes": structure(v.model)})
 
+    T["search"] = round(_time.time() - t_, 1)
+    t_ = _time.time()
     # ---- ties D2 (jax_k == eager JAX) and D3 (lowered_k == onnxruntime(export)), inside Coq on the same grid
     cap = 100 if tier == "quick" else 400
     d_items = []
@@ -1171,6 +1195,7 @@ def run(ctx):
         ctx.oblige(f"tieD3:lowered_k-equals-onnxruntime-on-the-real-export({n_d3} variants, {c_d3} points)", not bad_d3, "tie",
                    "; ".join(bad_d3[:6]))
 
+    T["tieD2D3"] = round(_time.time() - t_, 1)
     kernels_seen = sorted({v.k.name for v in live})
     ctx.coverage.update({
         "c01k_kernels": len(kernels_seen), "c01k_kernel_list": kernels_seen,
@@ -1179,7 +1204,7 @@ def run(ctx):
         "c01k_variants_onnxruntime_has_no_kernel": no_kernel,
         "c01k_variants_skipped_for_onnxruntime_deviation": deviant,
         "c01k_tieD1": d1stats,
-        "c01k_tieD2_points": c_d2, "c01k_tieD3_points": c_d3,
+        "c01k_tieD2_points": c_d2, "c01k_tieD3_points": c_d3, "c01k_seconds": T,
     })
     ctx.coverage["evaluations"] = ctx.coverage.get("evaluations", 0) + points + d1stats.get("cases", 0) + c_d2 + c_d3
     ctx.coverage["distinct_nontrivial"] = ctx.coverage.get("distinct_nontrivial", 0) + nontrivial
